@@ -13,7 +13,7 @@ import ast
 from sa.cfg import cfg_of
 from sa.dataflow import reaching
 from sa.fold import Evaluator, Obj, Raised, Unfoldable
-from sa.guards import decide_with, find_calls
+from sa.guards import decide_with, find_calls, kind_name
 from sa.loader import AnalysisError, FuncNode, call_name, calls_in, kwarg, walk_local
 
 PROPERTY = "C16"
@@ -383,7 +383,7 @@ def r5(repo, res):
     res.analysed(g)
     c = cfg_of(g)
     for kind in ("vcf", "pscan"):
-        removed = c.prune(decide_with({"kind": kind}))
+        removed = c.prune(decide_with({kind_name(g): kind}))
         ctor = [x for x in calls_in(g) if call_name(x) in ("Profile", "Profile.load")
                 and c.is_reachable(c.node_of(x), removed)]
         ok = len(ctor) >= 1
